@@ -3,8 +3,9 @@
    extremes, no table overrun for any string); and the rounding-error analysis of the conversion itself
    (Proofs/FloatErr.v, over the reals with Flocq): whatever decimal mantissa and exponent the scanner hands over, the
    float / double that parse_number builds from them is within 6e-7 (float) or 2e-15 (double) of mant * 10^expo.
-   Still open (see C12_accuracy_partial at the end): the link literal -> (mant, expo) for literals with a decimal
-   point or more digits than the mantissa holds, and the printing bounds. *)
+   On top of it (Proofs/NumValue.v, Proofs/PrintErr.v): the parsing clause for EVERY literal of the number grammar
+   (sign, leading zeros, fraction, exponent, dropped digits) with its exact real value, and the printing clause for
+   every finite float / double in the range.  What remains outside the theorems is listed at the end. *)
 From Coq Require Import NArith ZArith List Bool.
 From Coq Require Import Floats.SpecFloat.
 From AJ Require Import Model.Base Model.FloatModel Model.Value Model.NumParse Model.JsonSer.
@@ -13,6 +14,7 @@ From AJ Require Gen.Tables Gen.Config.
 From Coq Require Import Reals.
 From Flocq Require Import Core BinarySingleNaN.
 From AJ Require Import Proofs.FloatErr.
+From AJ Require Proofs.NumValue Proofs.PrintErr.
 Local Open Scope Z_scope.
 
 (* every integer literal in [-2^63, 2^64), with any number of leading zeros, parses to exactly that integer
@@ -165,13 +167,123 @@ Theorem C12_exponent_literals_double : forall c (sg : option bool) ds eb (esg : 
 Proof. exact exp_literal_double_accuracy. Qed.
 Print Assumptions C12_exponent_literals_double.
 
-(* C12_accuracy_partial — what is NOT yet a theorem: (a) for literals with a decimal point or with more digits than the
-   mantissa holds, that the (mant, expo) the scanner hands to [finish] is within the truncation error of the literal's
-   value (the conversion from there on is C12_conversion_accuracy); (b) the printing bounds |print(x) - x| <=
-   1e-6 / 1e-9 * max(1,|x|) (normalize + decomposeFloat).  What stands in for them:
-   the model of parseNumber / writeFloat is bit-exact against the library on every run (SpecFloat arithmetic),
-   and the library's results are checked against these tolerances with exact rational arithmetic on tens of
-   thousands of literals and values aimed at the boundaries. *)
+(* ---- the parsing clause, for every literal  [sign] I [ . F ] [ (e|E) [sign] X ]  (I, F, X digit strings; any number of
+   leading zeros; also the lenient ".5" and "1e"), of at most 9000 characters, whose exact value V satisfies
+   1e-300 <= V <= 1e300:  the result is EXACTLY that integer (plain integer literal that fits), or a float within
+   1e-6*V — and then the digits needed at most 23 bits, i.e. at most seven significant digits — or a double within
+   1e-13*V; finite, correctly signed.  NumValue.lit_value is the literal's exact real value. ---- *)
+Theorem C12_every_literal_accurate : forall c sg I fo eo,
+  use_double c = true -> NumValue.wf_lit I fo eo ->
+  (length (NumValue.lit sg I fo eo) <= 9000)%nat ->
+  let F := NumValue.frac_digits fo in
+  let E := NumValue.lit_exp eo in
+  let V := NumValue.lit_abs I F E in
+  (p10 (-300) <= V <= p10 300)%R ->
+  (exists z, parse_number c (NumValue.lit sg I fo eo) = (if sign_neg sg then NumSInt z else NumUInt z) /\
+     IZR z = NumValue.lit_value (sign_neg sg) I F E)
+  \/
+  (exists r, parse_number c (NumValue.lit sg I fo eo) = NumFloat r /\ valid F32 r /\
+     FloatModel.is_finite r = true /\
+     (Rabs (SF2R radix2 r - NumValue.lit_value (sign_neg sg) I F E) <= 1e-6 * V)%R /\
+     dec (I ++ F) 0 <= 2 ^ 23 - 1)
+  \/
+  (exists r, parse_number c (NumValue.lit sg I fo eo) = NumDouble r /\ valid F64 r /\
+     FloatModel.is_finite r = true /\
+     (Rabs (SF2R radix2 r - NumValue.lit_value (sign_neg sg) I F E) <= 1e-13 * V)%R).
+Proof. exact NumValue.literal_accuracy_double_cfg_all. Qed.
+Print Assumptions C12_every_literal_accurate.
+
+(* more than seven significant digits: always a double within 1e-13 *)
+Theorem C12_more_than_seven_digits : forall c sg I fo eo,
+  use_double c = true -> NumValue.wf_lit I fo eo -> ~ NumValue.int_path sg I fo eo ->
+  (length (NumValue.lit sg I fo eo) <= 9000)%nat ->
+  let F := NumValue.frac_digits fo in
+  let E := NumValue.lit_exp eo in
+  let V := NumValue.lit_abs I F E in
+  (p10 (-300) <= V <= p10 300)%R ->
+  10 ^ 7 <= dec (I ++ F) 0 ->
+  exists r, parse_number c (NumValue.lit sg I fo eo) = NumDouble r /\ valid F64 r /\
+     FloatModel.is_finite r = true /\
+     (Rabs (SF2R radix2 r - NumValue.lit_value (sign_neg sg) I F E) <= 1e-13 * V)%R.
+Proof. exact NumValue.more_than_seven_digits_is_double. Qed.
+Print Assumptions C12_more_than_seven_digits.
+
+(* larger magnitudes become the infinity of the literal's sign, smaller ones its zero *)
+Theorem C12_out_of_range_literals : forall c sg I fo eo, use_double c = true -> NumValue.wf_lit I fo eo ->
+  (length (NumValue.lit sg I fo eo) <= 9000)%nat ->
+  let V := NumValue.lit_abs I (NumValue.frac_digits fo) (NumValue.lit_exp eo) in
+  ((p10 309 < V)%R ->
+     parse_number c (NumValue.lit sg I fo eo) = NumDouble (S754_infinity (sign_neg sg))) /\
+  ((0 < V)%R -> (V < p10 (-400))%R ->
+     parse_number c (NumValue.lit sg I fo eo) = NumFloat (S754_zero (sign_neg sg))).
+Proof. exact NumValue.out_of_range_literals. Qed.
+Print Assumptions C12_out_of_range_literals.
+
+(* what the scanner hands to the conversion: digits are only ever DROPPED (never altered), at a relative cost of at most
+   1/(mant_max/10): 2.3e-15 with doubles, 1.2e-6 without *)
+Theorem C12_scanner_truncation : forall c sg I fo eo, NumValue.wf_lit I fo eo -> ~ NumValue.int_path sg I fo eo ->
+  dec (NumValue.exp_digits eo) 0 < 10000 ->
+  let F := NumValue.frac_digits fo in
+  let E := NumValue.lit_exp eo in
+  let V := NumValue.lit_abs I F E in
+  exists mant expo,
+    parse_number c (NumValue.lit sg I fo eo) = finish c (sign_neg sg) mant expo /\
+    0 <= mant <= mant_max_of c /\
+    (V = 0%R -> mant = 0) /\
+    ((0 < V)%R -> 1 <= mant) /\
+    (IZR mant * p10 expo <= V)%R /\
+    (V - IZR mant * p10 expo <= NumValue.trunc_err c * V)%R /\
+    (dec (I ++ F) 0 < 10 * (mant_max_of c / 10) ->
+       mant = dec (I ++ F) 0 /\ expo = E - NumValue.len F /\ (IZR mant * p10 expo = V)%R) /\
+    (mant < mant_max_of c / 10 -> mant = dec (I ++ F) 0 /\ expo = E - NumValue.len F).
+Proof. exact NumValue.scan_value. Qed.
+Print Assumptions C12_scanner_truncation.
+
+(* float-only configuration: 2e-6 (the 8th digit is dropped before the conversion: 1e-6 is NOT met there, see
+   NumValue.float_cfg_1e6_false: "8388609.0" reads as 8388600; the property's bounds are stated for the default
+   configuration, DESIGN.md 8) *)
+Theorem C12_every_literal_accurate_float_only : forall c sg I fo eo,
+  use_double c = false -> NumValue.wf_lit I fo eo -> ~ NumValue.int_path sg I fo eo ->
+  (length (NumValue.lit sg I fo eo) <= 9000)%nat ->
+  let F := NumValue.frac_digits fo in
+  let E := NumValue.lit_exp eo in
+  let V := NumValue.lit_abs I F E in
+  (p10 (-31) <= V <= p10 38)%R ->
+  exists r, parse_number c (NumValue.lit sg I fo eo) = NumFloat r /\
+    (FloatModel.is_finite r = true ->
+     (Rabs (SF2R radix2 r - NumValue.lit_value (sign_neg sg) I F E) <= 2e-6 * V)%R).
+Proof. exact NumValue.literal_accuracy_float_cfg. Qed.
+Print Assumptions C12_every_literal_accurate_float_only.
+
+(* ---- the printing clause: a finite double x (a finite float v) with 1e-300 <= |x| <= 1e300 is printed as the literal
+   [-] i [. f] [e [-] e'] whose exact decimal value PrintErr.lit_value is within 1e-9*max(1,|x|) (1e-6*max(1,|v|)) ---- *)
+Theorem C12_print_double_accuracy : forall c x, use_double c = true ->
+  valid F64 x -> FloatModel.is_finite x = true ->
+  (p10 (-300) <= Rabs (SF2R radix2 x) <= p10 300)%R ->
+  exists neg i f eneg e, write_f64 c x = PrintErr.lit_text neg i f eneg e /\
+    Forall is_digit_byte i /\ i <> [] /\ Forall is_digit_byte f /\ Forall is_digit_byte e /\
+    (Rabs (PrintErr.lit_value neg i f eneg e - SF2R radix2 x) <= 1e-9 * Rmax 1 (Rabs (SF2R radix2 x)))%R.
+Proof. exact PrintErr.write_f64_accuracy. Qed.
+Print Assumptions C12_print_double_accuracy.
+
+Theorem C12_print_float_accuracy : forall c v, use_double c = true ->
+  valid F32 v -> FloatModel.is_finite v = true ->
+  (p10 (-300) <= Rabs (SF2R radix2 v) <= p10 300)%R ->
+  exists neg i f eneg e, write_f32 c v = PrintErr.lit_text neg i f eneg e /\
+    Forall is_digit_byte i /\ i <> [] /\ Forall is_digit_byte f /\ Forall is_digit_byte e /\
+    (Rabs (PrintErr.lit_value neg i f eneg e - SF2R radix2 v) <= 1e-6 * Rmax 1 (Rabs (SF2R radix2 v)))%R.
+Proof. exact PrintErr.write_f32_accuracy. Qed.
+Print Assumptions C12_print_float_accuracy.
+
+(* non-vacuity: "3.14", "0.000001234567e-5" and "12345678901234567890.123e10" meet the hypotheses (checked by computation
+   in NumValue.ex_3_14 / ex_small / ex_long) *)
+
+(* Outside these theorems: literals longer than 9000 characters whose exponent digits saturate the scanner's accumulator
+   (covered by C12_no_table_overrun, C12_result_shapes and the run on strings of up to 70000 characters); results in the
+   subnormal range (no relative bound exists there); printing in the float-only configuration (normalize in binary32).
+   The model of parseNumber / writeFloat is compared bit-for-bit with the library on every run, and the library's
+   results are checked against the same tolerances with exact rational arithmetic. *)
+
 
 Example C12_examples :
   parse_number default_cfg [49; 56; 52; 52; 54; 55; 52; 52; 48; 55; 51; 55; 48; 57; 53; 53; 49; 54; 49; 53]%N
